@@ -44,8 +44,12 @@ def run_scenarios(ck, jobs, files, rng, what):
         if b["exc"]:
             continue
         lst = job["list"] if job["list"] is not None else list(range(job["N"]))
-        trecs.append({"op": "tomo", "N": job["N"], "m": job["m"], "list": lst, "full": 1 if job["full"] else 0, "kind": job["kind"],
-                      "meas": [c % impl.W2 for c in (job["meas"] or [])], "comps": job["comps"], "values": b["values"]})
+        base = {"op": "tomo", "N": job["N"], "m": job["m"], "list": lst, "kind": job["kind"],
+                "meas": [c % impl.W2 for c in (job["meas"] or [])], "comps": job["comps"]}
+        trecs.append(dict(base, full=1 if job["full"] else 0, values=b["values"]))
+        # same fitter object, other full_hilbert_space flag, then the first flag again: three records per scenario
+        trecs.append(dict(base, full=0 if job["full"] else 1, values=b["values_other"]))
+        trecs.append(dict(base, full=1 if job["full"] else 0, values=b["values_again"]))
         for i, ents in enumerate(b["per_circuit"]):
             frecs.append({"op": "fitter", "N": job["N"], "m": job["m"], "list": lst, "full": 1 if job["full"] else 0,
                           "counts": [[list(k), c] for k, c in job["counts"][i].items()], "ro": b["ro"][i], "values": ents})
@@ -67,8 +71,8 @@ def run_scenarios(ck, jobs, files, rng, what):
         if b["exc"]:
             results.append((job, b, None, []))
             continue
-        tcl = tv[ti][0]
-        ti += 1
+        tcl = tv[ti][0] | {"other-flag:" + c for c in tv[ti + 1][0]} | {"again:" + c for c in tv[ti + 2][0]}
+        ti += 3
         fcl = []
         for _ in b["per_circuit"]:
             fcl.append(fv[fi][0])
